@@ -121,6 +121,7 @@ Proof.
     try (destruct (N.eqb c c') eqn:E0;
          [ apply N.eqb_eq in E0; subst c'; rewrite (Hr1 eq_refl); clear Hr1 Hr2
          | clear Hr1 ]);
-    cbn in *; rewrite ?Hs; rewrite ?N.eqb_refl; split_goal; cbn; cheap; mid; try tail Hl; finish.
+    cbn in *; rewrite ?Hs; rewrite ?N.eqb_refl; split_goal; cbn; cheap; mid; try tail Hl; finish;
+    exfalso; all_actions; all_disps; cbn in *; congruence.
 Qed.
 
